@@ -3,6 +3,8 @@ package main
 // Stream `evcheck` (C13): eventcheck.Checkers.Validate on generated events.
 
 import (
+	. "verifharness/hlib"
+
 	"bufio"
 	"encoding/binary"
 	"fmt"
@@ -19,7 +21,7 @@ import (
 )
 
 func init() {
-	register("evcheck", &Stream{Gen: genEvCheck, NewRunner: func() Runner { return RunnerFunc(evCheckStep) }})
+	Register("evcheck", &Stream{Gen: genEvCheck, NewRunner: func() Runner { return RunnerFunc(evCheckStep) }})
 }
 
 type epochReader struct {
@@ -42,33 +44,33 @@ func evCheckStep(line string) string {
 	var e dag.MutableBaseEvent
 	var parents dag.Events
 	var pids hash.Events
-	for _, w := range fields(line)[1:] {
+	for _, w := range Fields(line)[1:] {
 		kv := strings.SplitN(w, "=", 2)
 		switch kv[0] {
 		case "cur":
-			cur = atou(kv[1])
+			cur = Atou(kv[1])
 		case "vals":
-			for _, s := range splitList(kv[1]) {
-				vals = append(vals, idx.ValidatorID(atou(s)))
+			for _, s := range SplitList(kv[1]) {
+				vals = append(vals, idx.ValidatorID(Atou(s)))
 			}
 		case "e":
 			p := strings.Split(kv[1], ":")
-			e.SetEpoch(idx.Epoch(atou(p[0])))
-			e.SetSeq(idx.Event(atou(p[1])))
-			e.SetFrame(idx.Frame(atou(p[2])))
-			e.SetLamport(idx.Lamport(atou(p[3])))
-			e.SetCreator(idx.ValidatorID(atou(p[4])))
+			e.SetEpoch(idx.Epoch(Atou(p[0])))
+			e.SetSeq(idx.Event(Atou(p[1])))
+			e.SetFrame(idx.Frame(Atou(p[2])))
+			e.SetLamport(idx.Lamport(Atou(p[3])))
+			e.SetCreator(idx.ValidatorID(Atou(p[4])))
 		case "ps":
-			for _, s := range splitList(kv[1]) {
+			for _, s := range SplitList(kv[1]) {
 				p := strings.Split(s, ":")
 				var pe dag.MutableBaseEvent
-				pe.SetCreator(idx.ValidatorID(atou(p[1])))
-				pe.SetSeq(idx.Event(atou(p[2])))
-				pe.SetLamport(idx.Lamport(atou(p[3])))
+				pe.SetCreator(idx.ValidatorID(Atou(p[1])))
+				pe.SetSeq(idx.Event(Atou(p[2])))
+				pe.SetLamport(idx.Lamport(Atou(p[3])))
 				// id = epoch(0) ++ lamport ++ 24-byte tail carrying the protocol number; the generator only
 				// repeats a protocol number on exact copies (same lamport), so equal numbers <=> equal ids
 				var tail [24]byte
-				binary.BigEndian.PutUint64(tail[16:], atou(p[0]))
+				binary.BigEndian.PutUint64(tail[16:], Atou(p[0]))
 				pe.SetID(tail)
 				be := pe.BaseEvent
 				parents = append(parents, &be)
@@ -186,7 +188,7 @@ func genEvCheck(r *Rand, n int, tier string, w *bufio.Writer) {
 				}
 			case 10:
 				if len(ps) > 0 {
-					ps[0].seq = r.Pick(ps[0].seq+1, ps[0].seq-1, seq, 1<<32-1, 0)&(1<<32-1)
+					ps[0].seq = r.Pick(ps[0].seq+1, ps[0].seq-1, seq, 1<<32-1, 0) & (1<<32 - 1)
 				}
 			case 11:
 				epoch = (cur + 1) & (1<<32 - 1)
